@@ -31,11 +31,33 @@ class Sym:
     """Unknown value of a static type; may be refined in place by a decision."""
     _n = 0
 
+    SERIAL = 0
+    JOURNAL = []              # (sym, "r", previous refinement) | (sym, "n", previous length of neq)
+
     def __init__(self, name, ty=None):
+        Sym.SERIAL += 1
+        self.serial = Sym.SERIAL
         self.name = name
         self.ty = ty          # type index (into facts.types) or None
-        self.resolved = None  # refinement (Adt / bool / int / str / Char ...)
+        self._resolved = None  # refinement (Adt / bool / int / str / Char ...)
         self.neq = []         # constants it is known to differ from
+
+    # Refinements are made in place while one decision vector is evaluated.  A symbol that exists before the
+    # evaluation starts (an input built by the rule once and used for every decision vector) must not carry the
+    # refinements of one vector into the next: every change is journalled and `Interp.explore` undoes the changes
+    # to such symbols after each vector (after freezing the result).
+    @property
+    def resolved(self):
+        return self._resolved
+
+    @resolved.setter
+    def resolved(self, v):
+        Sym.JOURNAL.append((self, "r", self._resolved))
+        self._resolved = v
+
+    def exclude(self, c):
+        Sym.JOURNAL.append((self, "n", len(self.neq)))
+        self.neq.append(c)
 
     def __repr__(self):
         if self.resolved is not None:
@@ -247,6 +269,82 @@ def to_atoms(v):
     return [("sym", v)]
 
 
+def freeze(v, serial0, memo):
+    """A copy of the value in which the refinements of symbols older than `serial0` are written out (objects without
+    such symbols inside are returned as they are)."""
+    k = id(v)
+    if k in memo:
+        return memo[k]
+    if isinstance(v, Sym):
+        if v.serial <= serial0 and v._resolved is not None:
+            r = freeze(v._resolved, serial0, memo)
+            memo[k] = r
+            return r
+        return v
+    if isinstance(v, (int, str, bool, float, Char, type(None), Top, FnRef)):
+        return v
+    memo[k] = v     # provisional (cycles)
+    if isinstance(v, Adt):
+        nf = {f: freeze(x, serial0, memo) for f, x in v.fields.items()}
+        if any(nf[f] is not v.fields[f] for f in nf):
+            a = Adt(v.path, v.variant, nf)
+            for attr, val in v.__dict__.items():
+                if attr not in ("path", "variant", "fields"):
+                    setattr(a, attr, val)
+            memo[k] = a
+            return a
+        return v
+    if isinstance(v, (Tup, RList)):
+        ni = [freeze(x, serial0, memo) for x in v.items]
+        if any(a is not b for a, b in zip(ni, v.items)):
+            r = type(v)(ni)
+            for attr, val in v.__dict__.items():
+                if attr != "items":
+                    setattr(r, attr, val)
+            memo[k] = r
+            return r
+        return v
+    if isinstance(v, Cell):
+        nv = freeze(v.v, serial0, memo)
+        if nv is not v.v:
+            r = Cell(nv)
+            memo[k] = r
+            return r
+        return v
+    if isinstance(v, Place):
+        nc = freeze(v.container, serial0, memo)
+        if nc is not v.container:
+            r = Place(nc, v.key)
+            memo[k] = r
+            return r
+        return v
+    if isinstance(v, Ref):
+        np_ = freeze(v.place, serial0, memo)
+        if np_ is not v.place:
+            r = Ref(np_)
+            memo[k] = r
+            return r
+        return v
+    if isinstance(v, StrB):
+        na = [(a[0], freeze(a[1], serial0, memo)) if a[0] != "lit" else a for a in v.atoms]
+        if any(x[1] is not y[1] for x, y in zip(na, v.atoms)):
+            r = StrB(na)
+            memo[k] = r
+            return r
+        return v
+    if isinstance(v, tuple):
+        nt = tuple(freeze(x, serial0, memo) for x in v)
+        r = nt if any(a is not b for a, b in zip(nt, v)) else v
+        memo[k] = r
+        return r
+    if isinstance(v, list):
+        nl = [freeze(x, serial0, memo) for x in v]
+        r = nl if any(a is not b for a, b in zip(nl, v)) else v
+        memo[k] = r
+        return r
+    return v
+
+
 def strip(v):
     """Look through references and resolved symbols."""
     while True:
@@ -384,6 +482,8 @@ class Interp:
             self.fuel = self.fuel0
             self.callstack = []
             Sym._n = 0
+            serial0 = Sym.SERIAL
+            j0 = len(Sym.JOURNAL)
             try:
                 res = run()
             except PanicEx as e:
@@ -393,6 +493,19 @@ class Interp:
                 self.tops.append(e.reason)
             except ReturnEx as e:
                 res = e.value
+            # symbols that existed before this evaluation keep nothing of it: the result is frozen (their refinements
+            # written into a copy), then their refinements are undone
+            changed = [ent for ent in Sym.JOURNAL[j0:] if ent[0].serial <= serial0]
+            if changed:
+                memo = {}
+                res = freeze(res, serial0, memo)
+                self.log = [freeze(ev, serial0, memo) for ev in self.log]
+                for sym, kind, old in reversed(changed):
+                    if kind == "r":
+                        sym._resolved = old
+                    else:
+                        del sym.neq[old:]
+            del Sym.JOURNAL[j0:]
             cases.append(Case(list(self.trace), res, list(self.log)))
             if len(cases) > self.max_cases:
                 cases.append(Case([], Top("case explosion (> %d cases)" % self.max_cases), []))
@@ -939,7 +1052,7 @@ class Frame:
             if d == 0:
                 v.resolved = c
                 return True
-            v.neq.append(c)
+            v.exclude(c)
             return False
         if isinstance(v, StrB):
             if v.is_concrete():
